@@ -4,5 +4,5 @@ NA = {
     "C04": "only about interleavings of real threads at atomic-operation granularity in lock-free/RwLock code: Kani does not model concurrent Rust, CBMC's pthread model does not cover std::sync as compiled by Kani, and sequentialising the real functions at yield points is not expressible (DESIGN.md §8). The state-property clause (REGISTERING pre-state answers 'sometimes') is checked under C01.",
     "C14": "every clause runs through serde_json (serializer, parser into BTreeMap/Value, re-serialisation) over arbitrary Unicode: BTreeMap nodes, recursive Value and byte loops are out of CBMC's reach within the caps, and stubbing serde_json would stub the property away (DESIGN.md §8).",
 }
-for p in ["C15"]:
+for p in []:
     NA[p] = PENDING
